@@ -138,7 +138,7 @@ def iter_retain(ctx):
 RR_NEXT = "<op_repeat::ReluctantRepeatIterator as std::iter::Iterator>::next"
 _IT = "a1.iterations"
 _LAST = "last(a1.iterations) as Some.0"
-_TOP = "try(last_mut(a1.iterations)) as Continue.0"
+_TOP = "last_mut(a1.iterations) as Some.0"
 
 
 def _sh(s):
@@ -195,8 +195,8 @@ def reluctant_repeat(ctx):
             _rec(d, "no-backtrack-after-extension", not any(c[0] in ("Vec::pop", "last_mut") for c in cs), "after a successful further iteration nothing may be popped or advanced in the same turn", loc)
         else:
             bt = [g for g in gs if g.startswith("variant(next(%s.matches))=" % _TOP)]
-            if "variant(try(last_mut(a1.iterations)))=Break" in gs:
-                _rec(d, "exhausted-only-when-no-iteration-left", p.end == "return" and r.startswith("propagate("), "with no iteration left next() must answer None", loc)
+            if "variant(last_mut(a1.iterations))=None" in gs:
+                _rec(d, "exhausted-only-when-no-iteration-left", p.end == "return" and r == "Option::None", "with no iteration left next() must answer None", loc)
                 continue
             if not bt:
                 _rec(d, "backtrack-advances-innermost", False, "no further iteration and no attempt to advance the innermost iteration (guards %s)" % gs[-3:], loc)
@@ -243,7 +243,7 @@ def cut_force_progress(ctx):
     if fb is None:
         return [missing(FP_NEXT)]
     d = {}
-    PV = "try(next(a1.base)) as Continue.0"
+    PV = "next(a1.base) as Some.0"
     P_ = "Option::Some{0: %s}" % PV
     cuts = []
     disc = {"same": None, "new": None}
@@ -254,10 +254,10 @@ def cut_force_progress(ctx):
         loc = fb.loc(p.blocks[-1])
         st = dict((strip_ver(show(e[1])), strip_ver(render(e[2]))) for e in p.effects if e[0] == "store")
         base_calls = [e for e in p.effects if e[0] == "call" and e[1] == "next"]
-        if any(g == "variant(try(next(a1.base)))=Break" for g in gs):
-            _rec(d, "exhausted-with-base", r.startswith("propagate("), "when the wrapped iterator is exhausted the answer must be None", loc)
+        if any(g == "variant(next(a1.base))=None" for g in gs):
+            _rec(d, "exhausted-with-base", r == "Option::None", "when the wrapped iterator is exhausted the answer must be None", loc)
             continue
-        if r == "Option::None" or r.startswith("propagate("):
+        if r == "Option::None":
             cuts.append((gs, loc, bool(base_calls)))
             _rec(d, "cut-seen", True, "", loc)
             continue
